@@ -72,4 +72,11 @@ theorem source_loop_exits_are_the_models (gasLimit gasReq acc len maxNum interva
        (decide (len % interval = 0) && decide (since > maxDur))] :=
   GenProofs.selectionStops_eq gasLimit gasReq acc len maxNum interval since maxDur
 
+theorem source_balance_test_is_the_models (consumed fee balance : Nat) (d1 d2 : Int) :
+    decide (consumed + fee > balance) = Gen.feeExceedsBalance fee false d1 d2 consumed balance :=
+  GenProofs.feeExceedsBalance_eq consumed fee balance d1 d2
+theorem source_balance_test_reads (_ : Unit) :
+    Gen.feeExceedsBalance_leaves = ["tx.Fee : Int", "fee == nil : Bool", "tx.FeePayer : Int", "sessionWrapper.getAccountRecord(feePayer) : Int",
+      "feePayerRecord.consumedBalance : Int", "feePayerRecord.initialBalance : Int"] := GenProofs.feeExceedsBalance_leaves
+
 end SV.Props.C02
